@@ -13,7 +13,8 @@ PHASES = ["before_write", "after_write", "after_flush", "after_return"]
 def model_check(rep):
     for cfg, label, expect in [("MC_FileDest.cfg", "the code: write, flush, return", None),
                                ("MC_FileDest_skip.cfg", "vacuity guard: flush skipped for some messages", "C11_AckedDurable"),
-                               ("MC_FileDest_late.cfg", "vacuity guard: flush after the call returned", "C11_AckedDurable")]:
+                               ("MC_FileDest_late.cfg", "vacuity guard: flush after the call returned", "C11_AckedDurable"),
+                               ("MC_FileDest_swallow.cfg", "vacuity guard: a failing flush is swallowed and the call returns", "C11_AckedDurable")]:
         r = run_tlc("FileDest", cfg, timeout=600, workers=8)
         require_ok(r, cfg)
         rep.add_tlc("%s (%s)" % (cfg, label), r, {"N": 4, "crash": "enabled in every state"}, expect_violation=expect)
@@ -45,6 +46,15 @@ def crash_cases(tier, rng):
                        {"op": "Exit", "c": 1, "o": "exc", "kind": "with"}, {"op": "Log", "c": 1, "ty": "m"}], "wit": 3, "collide": False}
     for n in range(2, 10):
         cases.append({"program": foreign, "mode": rng.choice(["binary", "text"]), "kill": [n, rng.choice(PHASES)]})
+    # a transient I/O fault: the flush of message j raises once (nothing leaves the buffer); the process is killed at the points
+    # around the return of that logging call -- an acknowledged message must be in the file all the same
+    plain = {"ops": [{"op": "Log", "c": 1, "ty": "m"}, {"op": "StartAction", "c": 1, "ty": "A"}, {"op": "Enter", "c": 1, "kind": "with", "a": 1},
+                     {"op": "Log", "c": 1, "ty": "m"}, {"op": "Log", "c": 1, "ty": "m"}, {"op": "Exit", "c": 1, "o": "ok", "kind": "with"},
+                     {"op": "Log", "c": 1, "ty": "m"}], "wit": 5, "collide": False}
+    for j in (range(1, 6) if not quick else (1, 3, 4)):
+        for kill in ([j, "after_return"], [j + 1, "after_return"], [j + 1, "before_write"], [j + 1, "after_write"], [j + 1, "after_flush"],
+                     [j + 2, "after_flush"], None):
+            cases.append({"program": plain, "mode": rng.choice(["binary", "text"]), "kill": kill, "flush_fault": j})
     return cases
 
 
